@@ -67,3 +67,56 @@ func roundTrip(pair string) {
 func VerifC35Escape()  { roundTrip("escape") }
 func VerifC35Escurl()  { roundTrip("escurl") }
 func VerifC35Eschtml() { roundTrip("eschtml") }
+
+// encodedLooking: text that already looks encoded in one of the three schemes (or in the
+// notation the encoders themselves emit) - the inputs on which a decoder that does too much,
+// or an encoder that does too little, stops being an inverse.
+var encodedLooking = []string{
+	"&amp;", "&lt;", "&#65;", "&#x41;", "&quot;", "&amp", "&lt", "&#9", "&nbsp;", "&;", "&#;",
+	"%41", "%2F", "%", "%%", "%zz", "+", "%25",
+	"\\n", "\\x41", "\\u0041", "\\\\", "\\\"", "\"", "\\", "\\101", "\\U00000041",
+}
+
+// VerifC35Encoded: x = an encoded-looking text with at most one arbitrary byte before or after it
+// through each encoder and its ! form.
+func VerifC35Encoded() {
+	pair := pairs[rt.Choice("pair", len(pairs))]
+	k := rt.Param("pool")
+	if k > len(encodedLooking) {
+		k = len(encodedLooking)
+	}
+	mid := encodedLooking[rt.Choice("text", k)]
+	// one arbitrary byte before or after the text (or none)
+	var pre, post []byte
+	switch rt.Choice("side", 3) {
+	case 1:
+		pre = rt.Bytes("pre", 1)
+	case 2:
+		post = rt.Bytes("post", 1)
+	}
+	if pair == "eschtml" {
+		// html.EscapeString goes through a 256-entry byte table (one path per byte value):
+		// the neighbour is restricted to the bytes that matter to entity syntax
+		for _, c := range append(append([]byte{}, pre...), post...) {
+			rt.Assume(rt.Or(rt.Or(rt.Or(c == '&', c == ';'), rt.Or(c == '#', c == 'a')), rt.Or(rt.Or(c == '1', c == 'x'), rt.Or(c == '<', c == 0xff))))
+		}
+	}
+	x := append(append(append([]byte{}, pre...), mid...), post...)
+
+	enc, err := method(pair, x)
+	rt.Assert(err == nil, "the encoder failed")
+	if err != nil {
+		return
+	}
+	dec, err := method("!"+pair, enc)
+	rt.Assert(err == nil, "the decoder rejected the encoder's output")
+	if err != nil {
+		return
+	}
+	rt.Reach("encoded-looking-decoded")
+	rt.Assert(len(dec) == len(x), "decoded text has a different length (encoded-looking input)")
+	if len(dec) != len(x) {
+		return
+	}
+	rt.Assert(string(dec) == string(x), "decoded text differs from the original (encoded-looking input)")
+}
